@@ -120,6 +120,12 @@ func checkC09(c *Ctx) {
 		}
 	}
 	checkCacheRefresh(c)
+	// Rollback returns to lastSaved: it must follow every successful commit / load
+	checkLastSaved(c)
+	// the index rebuild that follows a rollback-by-overwrite is restartable: label last, decision always reached
+	c.rule("ORDER-index-rebuild", "rollback reaches the index rebuild decision; the rebuild writes its label last", 3)
+	checkRebuildDecision(c, "ORDER-index-rebuild")
+	checkIndexLabelLast(c, "ORDER-index-rebuild")
 
 	// ---- (2)
 	dvf := l.Func("", "*nodeDB.DeleteVersionsFrom")
